@@ -2,7 +2,12 @@
 
 make_real()                      -> fresh real object in the specification's initial state
 apply(real, name, args, before)  -> performs the action on the real code; returns an observation (or None)
-compare(real, after, obs)        -> None if the real object is in specification state `after`, else (clause, detail)
+compare(real, after, obs)        -> None if the real object is in specification state `after`;
+                                    (clause, detail) if what the real code did violates the PROPERTY (judged on the real
+                                    observations alone by an oracle transcribed from the specification's invariants);
+                                    ('DRIFT', detail) if the real object merely differs from the specification state although
+                                    its observable history satisfies the property (an implementation that changed but is
+                                    still right): counted and reported as a note, never as a violation
 state_of(vars)                   -> python projection of a dot node (dict var -> TLA+ value text)
 
 States are reached by following edges as far as possible (DFS over unreplayed edges); a state whose outgoing edges are not all
@@ -66,7 +71,8 @@ def replay(v, module, cfg, make_real, apply, compare, state_of, prop, label, des
 
     done = set()
     total = sum(len(x) for x in out.values())
-    replayed = teleports = failures = 0
+    replayed = teleports = failures = drift = 0
+    drift_notes = []
     bad_states = set()
     stack_states = list(reversed(order))
     cur, real = inits[0], make_real()
@@ -108,6 +114,13 @@ def replay(v, module, cfg, make_real, apply, compare, state_of, prop, label, des
         except Exception as ex:     # the library raised where the specification defines a step
             bad = ('%s.%s_step_raised' % (prop, label), '%s: %s' % (type(ex).__name__, ex))
         replayed += 1
+        if bad and bad[0] == 'DRIFT':
+            # the implementation left the specification but has not violated the property: keep driving it along the
+            # specification's inputs, judged by the oracle alone
+            drift += 1
+            if len(drift_notes) < 3:
+                drift_notes.append('state %s --%s--> %s' % (describe(S(cur)), lab, bad[1]))
+            bad = None
         if bad:
             failures += 1
             if failures <= max_failures:
@@ -122,5 +135,10 @@ def replay(v, module, cfg, make_real, apply, compare, state_of, prop, label, des
     v.add('%s_transitions_total' % label, total)
     v.add('%s_states' % label, len(nodes))
     v.add('%s_teleports' % label, teleports)
+    v.add('%s_transitions_matching_spec_state' % label, replayed - drift - failures)
+    if drift:
+        v.notes.append('DRIFT (%s/%s): on %d of %d replayed transitions the real code was not in the specification state although its '
+                       'observable history satisfies the property; the specification no longer describes the implementation: %s' % (
+                           module, cfg, drift, replayed, ' | '.join(drift_notes)))
     v.sample({'model': module, 'cfg': cfg, 'example_path': [l for (_, _, l) in path_to(order[len(order) // 2])]})
     return replayed, total
